@@ -6,6 +6,12 @@ pub(crate) mod hs {
 
     pub const TOP: u16 = 0x8000;
 
+    /// stand-in for std::fmt::format on error paths (`#[kani::stub(std::fmt::format, stub_format)]`):
+    /// formatting dominates CBMC cost and its text is irrelevant to every obligation
+    pub fn stub_format(_args: std::fmt::Arguments<'_>) -> String {
+        String::new()
+    }
+
     pub fn mk_shared(ints: Vec<AbraInt>, floats: Vec<f64>) -> Arc<VmSharedReadonly> {
         Arc::new(VmSharedReadonly {
             program: vec![],
